@@ -14,7 +14,9 @@
      "AvroCloseNoFlush"   close() of the Avro writer drops appBuf
      "CloseNoHeader"      close() of a stream/Avro writer that never wrote nor flushed produces no preamble
      "FlushAfterCloseRaises"  flush()/with-exit after close() raises (Avro)
-     "AvroFlushPoisons"   flush() before the first record makes the Avro writer refuse records              *)
+     "AvroFlushPoisons"   flush() before the first record makes the Avro writer refuse records
+     "FailedWritePoisons" a record the adapter refuses (write() raises) leaves half of itself in the adapter's
+                          buffer, so that records accepted before and after it cannot be read back (sensitivity) *)
 EXTENDS Naturals, Sequences, FiniteSets, TLC
 CONSTANTS Kinds, MaxOps, Dev
 
@@ -76,7 +78,16 @@ Exit == /\ Tick
         /\ UNCHANGED <<kind, written>>
 
 RefusedWrite == st = "open" /\ Tick /\ WriteRefused /\ UNCHANGED <<kind, st, written, appBuf, file, hdr, raised>>
-Next == Write \/ RefusedWrite \/ Flush \/ Close \/ Exit
+\* a record the adapter cannot represent (text it cannot encode ...): write() raises, the record is NOT accepted, and
+\* nothing of it stays behind.  The binary stream writer has produced its header by then; the others have not.
+\* (the line writer prints field by field, so a refused record leaves its first lines behind: human-readable
+\* output about which C17 claims nothing -- not modelled)
+CanRefuse(k) == k \in {"stream", "streamgz", "avro", "sqlite", "csv"}
+FailedWrite == /\ st = "open" /\ Tick /\ CanRefuse(kind)
+               /\ hdr' = (hdr \/ kind \in {"stream", "streamgz"})
+               /\ appBuf' = IF "FailedWritePoisons" \in Dev /\ HasAppBuf(kind) THEN Append(appBuf, 0) ELSE appBuf
+               /\ UNCHANGED <<kind, st, written, file, raised>>
+Next == Write \/ RefusedWrite \/ FailedWrite \/ Flush \/ Close \/ Exit
 Spec == Init /\ [][Next]_vars
 
 \* ---------------- C17 (close part) ----------------
@@ -84,5 +95,5 @@ ClosedMeansDurable == st = "closed" => (file = written /\ appBuf = <<>>)
 EmptyIsValid == (st = "closed" /\ MustBeValidEmpty(kind)) => (NeedsHeader(kind) => hdr)
 ClosingNeverRaises == ~raised
 \* flush makes everything accepted so far durable-on-close-independent: after flush nothing sits in the adapter
-FlushEmptiesAdapter == [][(st = "open" /\ nops' = nops + 1 /\ written' = written /\ st' = "open") => appBuf' = <<>>]_vars
+FlushEmptiesAdapter == [][(Flush /\ st = "open") => appBuf' = <<>>]_vars
 =============================================================================
